@@ -357,14 +357,14 @@ class SymMatch(object):
         self._run()
         g = self._gid(g)
         if g == 0:
-            return onehot_to_int(self.Pstart), onehot_to_int(self._endP)
+            return core.try_concretize(onehot_to_int(self.Pstart)), core.try_concretize(onehot_to_int(self._endP))
         reg = self._groups.get(g)
         if reg is None:
             return (-1, -1)
         P, E, anyp, always = reg
         if not always and not B_decide(anyp):
             return (-1, -1)
-        return onehot_to_int(P), onehot_to_int(E)
+        return core.try_concretize(onehot_to_int(P)), core.try_concretize(onehot_to_int(E))
 
     def group(self, *gs):
         if not gs:
